@@ -16,6 +16,19 @@ for d in sorted(glob.glob(os.path.join(root, "*/"))):
     sigs = dict(re.findall(r"caught_by=(C\d+) check=(\S+ sig=\S+)", ev))
     prop = am.get("property", name[:3])
     caught = s.group(1).split() if s else []
+    # the own check re-run with the current harness (tools/own_check_now.sh) overrides the own-check column of eval.txt
+    own_now = ""
+    try:
+        own_now = open(os.path.join(d, "own_now.txt")).read()
+    except Exception:
+        pass
+    if "verdict=CAUGHT" in own_now and prop not in caught:
+        caught = sorted(set(caught + [prop]))
+        mm = re.search(r"check=(\S+) sig=(\S+)", own_now)
+        if mm:
+            sigs[prop] = "%s sig=%s" % (mm.group(1), mm.group(2))
+    elif "verdict=missed" in own_now and prop in caught:
+        caught = [c for c in caught if c != prop]
     meta = {
         "id": name,
         "property_broken": prop,
